@@ -36,7 +36,7 @@ if [ -n "$VERIF_RACE" ] || { [ "$TIER" = thorough ] && { [ "$ID" = C01 ] || [ "$
 fi
 
 LOG="$BIN/run-$ID-$TIER.log"
-ulimit -c 0
+ulimit -c 0; ulimit -n $(ulimit -Hn) 2>/dev/null
 "$VERIF_BIN" check "$ID" "$TIER" 2>"$LOG.err" | tee "$LOG"
 code=${PIPESTATUS[0]}
 case $code in
